@@ -429,6 +429,14 @@ class Interp:
         for f in reversed(self.frames[:-1]):
             if f.finfo is not None and fr.finfo is not None and fr.finfo.parent is f.finfo and name in f.env:
                 return f.env[name]
+        # an escaped closure (returned generator / callback called after its definer returned)
+        cf = getattr(fr.finfo, "closure_frame", None) if fr.finfo is not None else None
+        hops = 0
+        while cf is not None and hops < 8:
+            if name in cf.env:
+                return cf.env[name]
+            cf = getattr(cf.finfo, "closure_frame", None) if cf.finfo is not None else None
+            hops += 1
         ns = self.module_ns(fr.modname) if fr.modname in self.prog.modules else fr.env
         if ns is not None and name in ns:
             return ns[name]
@@ -1023,7 +1031,7 @@ class _ExprMixin:
         """a lambda is an anonymous nested function: def <lambda>(args): return <body>"""
         cache = self.__dict__.setdefault("_lambda_infos", {})
         fr = self.frames[-1]
-        key = (id(n), id(fr.finfo))
+        key = (id(n), id(fr))
         fi = cache.get(key)
         if fi is None:
             from .model import FuncInfo
@@ -1039,6 +1047,8 @@ class _ExprMixin:
             if m is None:
                 return Op("lambda", Const(ast.unparse(n)))
             fi = FuncInfo(m, fn, parent=fr.finfo) if fr.finfo is not None else FuncInfo(m, fn)
+            fi.closure_frame = fr if fr.finfo is not None else None
+            fi._keep = fr       # keeps id(fr) unique for the cache key
             cache[key] = fi
         return FuncV(fi)
 
@@ -1539,6 +1549,7 @@ class _StmtMixin:
         parent = fr.finfo
         m = self.prog.modules[fr.modname]
         fi = FuncInfo(m, st, parent=parent) if parent is not None else FuncInfo(m, st)
+        fi.closure_frame = fr if parent is not None else None      # free variables resolve in the defining activation
         self.store_name(st.name, FuncV(fi))
 
     st_AsyncFunctionDef = st_FunctionDef
